@@ -16,29 +16,30 @@ void replace_substrings(char *buffer,
     const char *strit = input;
     const char *streit = input + inlen;
     char *bufit = buffer;
+    size_t room; // bytes that may still be stored in front of the terminator
+    size_t len;
 
-    if (sublen == 0)
-    {
-        size_t len = __MIN__(maxsize - 1, inlen);
-        memcpy(buffer, input, len);
-        buffer[len] = 0;
-    }
+    if (maxsize == 0)
+        return;
+    room = maxsize - 1;
 
     char *finded;
-    while ((finded = igris_memmem(strit, streit - strit, sub, sublen)) != NULL)
+    while (sublen != 0 &&
+           (finded = igris_memmem(strit, streit - strit, sub, sublen)) != NULL)
     {
-        ptrdiff_t step = finded - strit;
+        len = __MIN__((size_t)(finded - strit), room);
+        memcpy(bufit, strit, len);
+        bufit += len;
+        room -= len;
+        strit = finded + sublen;
 
-        memcpy(bufit, strit, step);
-        bufit += step;
-        strit += step;
-
-        memcpy(bufit, rep, replen);
-        bufit += replen;
-        strit += sublen;
+        len = __MIN__(replen, room);
+        memcpy(bufit, rep, len);
+        bufit += len;
+        room -= len;
     };
 
-    ptrdiff_t lastlen = streit - strit;
-    memcpy(bufit, strit, lastlen);
-    *(bufit + lastlen) = 0;
+    len = __MIN__((size_t)(streit - strit), room);
+    memcpy(bufit, strit, len);
+    *(bufit + len) = 0;
 }
